@@ -19,10 +19,17 @@ theorem null_unary (c : Ctx) (op : String) (hop : op ∈ unaryArithOps) (e : Val
     cases r with
     | none => rfl
     | some v => cases v <;> simp [Spec.nullish] at hn; rfl
+  have ha : e.isArr = false := by
+    cases e with
+    | arr xs =>
+      obtain ⟨ys, rfl⟩ := eval_arr_ok c xs r he
+      simp [Spec.nullish] at hn
+    | _ => rfl
   simp only [unaryArithOps, List.mem_cons, List.mem_nil_iff, or_false] at hop
   rcases hop with rfl | rfl | rfl | rfl | rfl | rfl | rfl | rfl <;>
-  · simp [eval, evalDoc, classify, arithmeticOps, unaryArithOps, binaryArithOps, mode, wholeOps,
-      dateOps, datePartOps, applyWhole, he, hr, bind, Except.bind, Except.map, hasTzKeys]
+  · rw [eval_whole' c _ e (by decide) (by decide) (by decide) (Or.inr ha) (Or.inl (by decide))
+      (by simp [mode, wholeOps, dateOps, datePartOps, unaryArithOps]), he]
+    simp [applyWhole, unaryArithOps, hr, Except.bind, Except.map]
 
 theorem binary_arity (op : String) (hop : op ∈ binaryArithOps) : arityErr op 2 = none := by
   simp only [binaryArithOps, List.mem_cons, List.mem_nil_iff, or_false] at hop
@@ -51,43 +58,44 @@ theorem null_binary (c : Ctx) (hign : c.ign = true) (op : String) (hop : op ∈ 
   simp only [binaryArithOps, List.mem_cons, List.mem_nil_iff, or_false] at hop
   rcases hop with rfl | rfl | rfl | rfl | rfl <;>
   · simp [eval, evalDoc, classify, arithmeticOps, unaryArithOps, binaryArithOps, mode, wholeOps,
+      unaryListOps, variadicOps, Val.isArr,
       dateOps, datePartOps, groupingOps, evalOp, har, listOps, comparisonOps, usesParseMany, hign,
       nullOnMissing, usesParseOrNothing, hl, applyList, hb', bind, Except.bind, Except.map]
 
 /-- the loop over the operands of `$add` / `$multiply`: a null after numbers ends it with null -/
-theorem checkNums_null (pre post : List Val) (hpre : ∀ v ∈ pre, (toPyNum v).isSome = true) :
+theorem checkNums_null (pre post : List Val) (hpre : ∀ v ∈ pre, (toPyNumNB v).isSome = true) :
     checkNums (pre ++ .null :: post) = .ok none := by
   induction pre with
   | nil => simp [checkNums]
   | cons v pre ih =>
     have hv := hpre v (by simp)
     have ih' := ih (fun w hw => hpre w (by simp [hw]))
-    cases hp : toPyNum v with
+    cases hp : toPyNumNB v with
     | none => simp [hp] at hv
     | some n =>
-      cases v <;> simp [toPyNum] at hp <;>
+      cases v <;> simp [toPyNumNB] at hp <;>
         simp [checkNums, toPyNum, ih', bind, Except.bind, pure, Except.pure]
 
 /-- the same for the loop of `$add`, whether or not a date has been set aside -/
 theorem checkAdd_null (pre post : List Val) (d : Option Int)
-    (hpre : ∀ v ∈ pre, (toPyNum v).isSome = true) :
+    (hpre : ∀ v ∈ pre, (toPyNumNB v).isSome = true) :
     checkAdd (pre ++ .null :: post) d = .ok none := by
   induction pre with
   | nil => cases d <;> simp [checkAdd]
   | cons v pre ih =>
     have hv := hpre v (by simp)
     have ih' := ih (fun w hw => hpre w (by simp [hw]))
-    cases hp : toPyNum v with
+    cases hp : toPyNumNB v with
     | none => simp [hp] at hv
     | some n =>
-      cases v <;> simp [toPyNum] at hp <;>
+      cases v <;> simp [toPyNumNB] at hp <;>
         simp [checkAdd, toPyNum, ih', bind, Except.bind, pure, Except.pure]
 
 /-- `$add` / `$multiply`: when the first operand value that is not a number is null (a missing
     operand counts as null), the result is null -/
 theorem null_nary (c : Ctx) (op : String) (hop : op = "$add" ∨ op = "$multiply") (xs : List Val)
     (pre post : List Val) (hl : evalList c c.ign xs = .ok (some (pre ++ .null :: post)))
-    (hpre : ∀ v ∈ pre, (toPyNum v).isSome = true) :
+    (hpre : ∀ v ∈ pre, (toPyNumNB v).isSome = true) :
     eval c (.doc [(op, .arr xs)]) = .ok (some .null) := by
   have hne : (pre ++ Val.null :: post).isEmpty = false := by cases pre <;> simp
   have hn : naryArith op (pre ++ .null :: post) = .ok .null := by
@@ -96,6 +104,7 @@ theorem null_nary (c : Ctx) (op : String) (hop : op = "$add" ∨ op = "$multiply
         Except.bind, pure, Except.pure]
   rcases hop with rfl | rfl <;>
   · simp [eval, evalDoc, classify, arithmeticOps, unaryArithOps, binaryArithOps, mode, wholeOps,
+      unaryListOps, variadicOps, Val.isArr,
       dateOps, datePartOps, groupingOps, evalOp, arityErr, listOps, comparisonOps, usesParseMany,
       nullOnMissing, usesParseOrNothing, hl, applyList, hn, bind, Except.bind, Except.map]
 
